@@ -203,7 +203,9 @@ def h_step_item(sym):
         g, m = STEP_NAMES[sym.choice('name', L)]
         entry = Entry(sym_type_byte(sym, kind), [ord(c) for c in g], [ord(c) for c in m])
         rid = sym.int('rid', 0, maxn)
-        sym.assume(rid <= idx)        # a device only answers requests that were made: indexes 0..idx
+        # any index of the table: an earlier request of THIS download (rid <= idx) or a stale reply to a request made
+        # before a reconnect (rid > idx)
+        sym.assume(rid < n)
         chan = sym.int('chan', 0, 3)
         pk = dev.item_reply(v2, rid, entry)
         pk.channel = chan
